@@ -52,7 +52,7 @@ static int load_case(Conf const &c, std::string const &data, bool bin)
   vproxy *px = new vproxy(4);
   px->set_target_temperature(c.T);
   place(*px, 4);
-  if (px->config(c.text) != 0) { fprintf(stderr, "HARNESS-ERROR: config rejected: %s\n", px->errtxt.c_str()); _exit(2); }
+  if (px->config(c.text) != 0) { fprintf(stderr, "HARNESS-ERROR: config rejected: %s\n", px->errtxt.c_str()); _exit(3); }
   if (bin) {
     std::vector<unsigned char> b(data.begin(), data.end());
     px->queue_state_binary(b);
